@@ -23,7 +23,8 @@ Vocabulary of the output: Model/Pickle.v (``reduced``, ``impl_rec`` fields, ``cl
     literal name in the module that defines the class;
   * ``self.inherit`` -> ``im_inherit self``, ``self._implements_cls`` -> ``im_cls self``;
   * the parameters of ``__init__`` named in ``self.__args = (..) + interfaces`` map to the record
-    fields of the model; a ``metacls`` parameter is the metaclass ``type`` (the model's assumption);
+    fields of the model; a ``metacls`` parameter is the metaclass of ``cls`` (``meta_ref``: ``type``
+    unless the world names another one);
   * ``self.__class__`` in ClassProvides.__reduce__ is the class ClassProvides itself;
   * an assignment inside the ``try:`` after ``cls.__implemented__ = spec`` is executed only when
     that store succeeds, i.e. not for built-in types.
@@ -261,7 +262,7 @@ def tr_prov_reduce(module):
 def tr_cprov_reduce(module):
     cls = _the_class(module, "ClassProvides")
     args = _args_assignment(cls, ["self", "cls", "metacls", "*interfaces"],
-                            {"cls": "class_ref w (cp_cls self)", "metacls": "type_ref",
+                            {"cls": "class_ref w (cp_cls self)", "metacls": "meta_ref w (cp_cls self)",
                              "*interfaces": "iface_refs w (cp_ifaces self)"})
     _reduce_returns(cls, lambda n: _self_attr(n, "__class__"))
     return ("(* declarations.py:ClassProvides.__init__ `self.__args = (cls, metacls, ) + interfaces`;\n"
@@ -303,6 +304,7 @@ def tr_default_impl(module):
         _fail(fn, "expected exactly one top-level `if spec is not None: ... else: ...`")
     cr = creators[0]
     _check_else_branch(cr.orelse)
+    _check_oldstyle_branch(cr.body)
     i_cr, i_try = body.index(cr), body.index(tr)
     if wr in body:
         i_wr = body.index(wr)
@@ -323,11 +325,18 @@ def tr_default_impl(module):
     else:
         _fail(wr, "`spec._implements_cls = cls` is nested somewhere else")
     # nothing between creation and try may return / rebind spec
-    return ("(* declarations.py:implementedBy, the branch that creates the specification of a class:\n"
-            "     spec = Implements.named(spec_name, *[implementedBy(c) for c in bases]); spec.inherit = cls\n"
+    return ("(* declarations.py:implementedBy, the two branches that create the specification of a class:\n"
+            "     old-style `__implemented__ = I` in the class body:\n"
+            "       declared = tuple(_normalizeargs(spec)); spec = Implements.named(spec_name, *declared);\n"
+            "       spec.inherit = None; spec.declared = declared\n"
+            "     otherwise:\n"
+            "       spec = Implements.named(spec_name, *[implementedBy(c) for c in bases]); spec.inherit = cls\n"
             "   and `spec._implements_cls = cls`, found %s *)\n"
             "Definition gen_default_impl (w : world) (cls : nat) : impl_rec :=\n"
-            "  mkImpl (Some cls) (%s) [] (map RC (cbases w cls)).\n" % (where, cls_field))
+            "  match assoc_nat cls (w_oldstyle w) with\n"
+            "  | Some declared => mkImpl None (%s) declared (map RI declared)\n"
+            "  | None => mkImpl (Some cls) (%s) [] (map RC (cbases w cls))\n"
+            "  end.\n" % (where, cls_field, cls_field))
 
 
 def _is_store_implemented(st):
@@ -340,6 +349,34 @@ def _is_spec_not_none(t):
     return (isinstance(t, ast.Compare) and len(t.ops) == 1 and isinstance(t.ops[0], ast.IsNot)
             and _is_name(t.left, "spec") and isinstance(t.comparators[0], ast.Constant)
             and t.comparators[0].value is None)
+
+
+def _check_oldstyle_branch(stmts):
+    """spec = (spec, ); declared = tuple(_normalizeargs(spec)); spec = Implements.named(spec_name, *declared);
+    spec.inherit = None; spec.declared = declared; del cls.__implemented__"""
+    stmts = [s for s in stmts if not (isinstance(s, ast.Expr) and isinstance(s.value, ast.Constant))]
+    if len(stmts) != 6:
+        _fail(stmts[0] if stmts else "if", "old-style branch does not have the six expected statements")
+    tup, decl, named, inh, dcl, dl = stmts
+    ok = (isinstance(tup, ast.Assign) and _is_name(tup.targets[0], "spec") and isinstance(tup.value, ast.Tuple)
+          and len(tup.value.elts) == 1 and _is_name(tup.value.elts[0], "spec"))
+    ok = ok and (isinstance(decl, ast.Assign) and _is_name(decl.targets[0], "declared")
+                 and isinstance(decl.value, ast.Call) and _is_name(decl.value.func, "tuple") and len(decl.value.args) == 1
+                 and isinstance(decl.value.args[0], ast.Call) and _is_name(decl.value.args[0].func, "_normalizeargs")
+                 and len(decl.value.args[0].args) == 1 and _is_name(decl.value.args[0].args[0], "spec"))
+    ok = ok and (isinstance(named, ast.Assign) and _is_name(named.targets[0], "spec") and isinstance(named.value, ast.Call)
+                 and isinstance(named.value.func, ast.Attribute) and _is_name(named.value.func.value, "Implements")
+                 and named.value.func.attr == "named" and len(named.value.args) == 2
+                 and _is_name(named.value.args[0], "spec_name") and isinstance(named.value.args[1], ast.Starred)
+                 and _is_name(named.value.args[1].value, "declared"))
+    ok = ok and (isinstance(inh, ast.Assign) and isinstance(inh.targets[0], ast.Attribute) and _is_name(inh.targets[0].value, "spec")
+                 and inh.targets[0].attr == "inherit" and isinstance(inh.value, ast.Constant) and inh.value.value is None)
+    ok = ok and (isinstance(dcl, ast.Assign) and isinstance(dcl.targets[0], ast.Attribute) and _is_name(dcl.targets[0].value, "spec")
+                 and dcl.targets[0].attr == "declared" and _is_name(dcl.value, "declared"))
+    ok = ok and (isinstance(dl, ast.Delete) and len(dl.targets) == 1 and isinstance(dl.targets[0], ast.Attribute)
+                 and _is_name(dl.targets[0].value, "cls") and dl.targets[0].attr == "__implemented__")
+    if not ok:
+        _fail(stmts[0], "old-style branch of implementedBy has an unexpected shape")
 
 
 def _check_else_branch(stmts):
@@ -580,10 +617,13 @@ Definition gen_impl_reduce (w : world) (self : impl_rec) : reduced :=
   Call FImplementedBy [class_arg w v_cls].
 Definition gen_prov_args (w : world) (self : prov_rec) : list reduced := [class_ref w (pv_cls self)] ++ iface_refs w (pv_ifaces self).
 Definition gen_prov_reduce (w : world) (self : prov_rec) : reduced := Call FProvides (gen_prov_args w self).
-Definition gen_cprov_args (w : world) (self : cprov_rec) : list reduced := [class_ref w (cp_cls self); type_ref] ++ iface_refs w (cp_ifaces self).
+Definition gen_cprov_args (w : world) (self : cprov_rec) : list reduced := [class_ref w (cp_cls self); meta_ref w (cp_cls self)] ++ iface_refs w (cp_ifaces self).
 Definition gen_cprov_reduce (w : world) (self : cprov_rec) : reduced := Call FClassProvides (gen_cprov_args w self).
 Definition gen_default_impl (w : world) (cls : nat) : impl_rec :=
-  mkImpl (Some cls) (Some cls) [] (map RC (cbases w cls)).
+  match assoc_nat cls (w_oldstyle w) with
+  | Some declared => mkImpl None (Some cls) declared (map RI declared)
+  | None => mkImpl (Some cls) (Some cls) [] (map RC (cbases w cls))
+  end.
 Definition gen_provides_factory (fuel : nat) (w : world) (st : state) (c : nat) (is : list nat) : state * nat :=
   let key := (c, is) in
   match cache_get st key with
